@@ -62,6 +62,8 @@ type blkWorld struct {
 	next    uint64
 	mss     int
 	msgSize int
+	readBuf int // size of the readers' buffers (smaller than msgSize: partial reads)
+	partial int // bytes returned by partial reads
 
 	readers, writers []*Actor
 	acceptors        []*Actor
@@ -122,6 +124,13 @@ func scenBlock(r *Run) {
 	// one message size per run: which of several blocked writers the runtime wakes
 	// first must not change anything observable (see the determinism note below)
 	bw.msgSize = 8 + t.Choose(cs, max(1, bw.mss-8))
+	// read buffers: whole messages as a rule; in a third of the runs smaller than a
+	// message, so that a Read leaves a remainder behind for the next reader (a
+	// tape stream of its own: older tapes keep their meaning)
+	bw.readBuf = 1500
+	if t.Chance("cfg-rbuf", 350) {
+		bw.readBuf = 1 + t.Choose("cfg-rbuf", bw.msgSize)
+	}
 	nReaders, nWriters := 1+t.Choose(cs, 3), 1+t.Choose(cs, 3)
 	nStim := 4 + t.Skewed(cs, 0, 40)
 	for i := 0; i < nWriters; i++ {
@@ -336,7 +345,7 @@ func (bw *blkWorld) readLoop(_ *Actor) {
 			if bw.stopIO || a == nil {
 				return
 			}
-			buf := make([]byte, 1500)
+			buf := make([]byte, bw.readBuf)
 			sess := bw.b.ep.Sess
 			start := s.Now()
 			s.L.Logf("call reader Read")
@@ -350,8 +359,16 @@ func (bw *blkWorld) readLoop(_ *Actor) {
 				rr := res.(ioRes)
 				s.L.Logf("ret  reader Read -> %d %s", rr.n, bw.errClass("Read", bw.b, rr.err))
 				bw.checkReturn("Read", bw.b, start, rr.n, rr.err, 0)
-				if rr.err == nil {
+				if rr.err == nil && bw.readBuf >= bw.msgSize {
 					bw.checkMsg(a, rr.buf[:rr.n])
+				} else if rr.err == nil {
+					// pieces of messages, handed to whichever reader comes next: only the
+					// amounts are judged here (the wake-up rules are what this run is for)
+					bw.partial += rr.n
+					if rr.n <= 0 || rr.n > bw.readBuf {
+						s.Fail("C13", "data", "bad-read-length", "Read into a %d-byte buffer returned %d without error", bw.readBuf, rr.n)
+					}
+					s.Stats.Probe("partial-read")
 				}
 				if rr.err != nil && !isTimeout(rr.err) {
 					return
@@ -455,6 +472,9 @@ func (bw *blkWorld) panicRes(res any, what string) bool {
 // checkMsg: every message is read exactly once and intact.
 func (bw *blkWorld) checkMsg(_ *Actor, b []byte) {
 	s := bw.s
+	if bw.readBuf < bw.msgSize {
+		return // runs with partial reads hand out pieces of messages
+	}
 	a := struct{ Name string }{"a reader"}
 	if len(b) < 8 {
 		s.Fail("C13", "data", "short-message", "%s: Read returned %d bytes, every message has at least 8", a.Name, len(b))
